@@ -313,7 +313,10 @@ func famKinds(e *emitter) {
 			for tt := 0; tt < 3; tt++ {
 				for _, pr := range probes {
 					for importer := 0; importer < 2; importer++ {
-						for mix := 0; mix < 2; mix++ {
+						for mix := 0; mix < 4; mix++ {
+							if mix >= 2 && (pr.Name == "T" || pr.Name == "ZZ") {
+								continue
+							}
 							g := Graph{Order: []string{"f", "v"}, Family: "kinds"}
 							var imp *Mod
 							if importer == 0 {
@@ -326,8 +329,14 @@ func famKinds(e *emitter) {
 							}
 							target := g.Mods[len(g.Mods)-1].Name
 							items := []ImpItem{pr}
-							if mix == 1 {
+							switch mix {
+							case 1:
 								items = []ImpItem{{Name: edgeName(target)}, pr}
+							case 2:
+								// a `type` item followed by an unprefixed one: the kind must not carry over
+								items = []ImpItem{{Name: "T", Type: true}, pr}
+							case 3:
+								items = []ImpItem{{Name: "T", Type: true}, pr, {Name: edgeName(target)}}
 							}
 							imp.Imports = append(imp.Imports, Import{From: target, Items: items})
 							e.add(g)
